@@ -306,7 +306,13 @@ def coq_prove(prop, extra_targets=()):
         res["problems"] += ["axiom not in allow-list: " + a for a in not_allowed]
     unprinted = [n for (k, n, l) in thms if k == "Theorem" and n not in printed]
     res["unprinted"] = unprinted
-    res["ok"] = (rc2 == 0 and not bad and not not_allowed and len(res["discharged"]) == len(res["obligations"]))
+    # a generator that could not translate a piece of the current source (MISSING / FALLBACK) leaves the
+    # theorems that depend on that piece unchecked against the code: fail closed, uniformly for every property
+    untranslated = [p_ for p_ in res["problems"] if ("MISSING" in p_ or "FALLBACK" in p_)]
+    if untranslated:
+        res["broken"] += ["generated fact not regenerated from the current source: " + u for u in untranslated]
+    res["ok"] = (rc2 == 0 and not bad and not not_allowed and not untranslated
+                 and len(res["discharged"]) == len(res["obligations"]))
     res["wall_s"] = time.time() - t0
     return res
 
